@@ -1,15 +1,17 @@
 // hsim - deterministic simulation of caller threads against the real fixed_math library.
-// See DESIGN.md section 9.  Decides one thing: the bits a public call returns at run time
-// do not depend on the history of earlier calls nor on how callers' calls interleave.
+// See DESIGN.md section 9.  Decides one thing: the bits a public call returns at run time do not
+// depend on the history of earlier calls, on how callers' calls interleave, nor (fine mode) on
+// where inside a call a caller is preempted while another caller runs library code.
 //
-//   hsim --scan <seed0> <count> [--hashes <file>]   explore <count> seeds; prints FOUND/STATS lines
-//   hsim --exec                                      execute a schedule given on stdin, print EXEC line
-//   hsim --merge <files...>                          count distinct 64-bit hashes in binary files
+//   hsim --scan <seed0> <count> --mode serial|fine [--hashes f] [--max-findings n]
+//   hsim --exec                 execute a scripted schedule given on stdin, print one EXEC line
+//   hsim --merge <files...>     count distinct 64-bit hashes in binary files
 //   hsim --list-ops
 //
-// The process that parses arguments (the "zygote") never calls into the library; every
-// execution happens in a forked child, so every history starts from pristine library state.
-#include <fixedmath/fixed_math.hpp>
+// The process that parses arguments (the "zygote") never calls into the library; every execution
+// happens in a forked child, so every history starts from pristine library state.
+// This file is never compiled with instrumentation; ops.cc (+ /repo's fixed_math.cc) may be.
+#include "ops.h"
 
 #include <algorithm>
 #include <cerrno>
@@ -21,32 +23,30 @@
 #include <cstdlib>
 #include <cstring>
 #include <map>
+#include <poll.h>
 #include <pthread.h>
 #include <semaphore.h>
 #include <string>
 #include <sys/wait.h>
-#include <type_traits>
 #include <unistd.h>
 #include <unordered_set>
 #include <vector>
 
-#if defined(__GNUC__)
-#pragma GCC diagnostic ignored "-Wdeprecated-declarations"
-#endif
-
 #ifndef HSIM_BUILD_CELL
 #define HSIM_BUILD_CELL "unknown"
 #endif
+#ifndef HSIM_INSTRUMENTED
+#define HSIM_INSTRUMENTED 0
+#endif
 
-using fixedmath::fixed_t;
-using fixedmath::as_fixed;
+static std::vector<Op> g_ops;
 
 // ---------------------------------------------------------------------------------------------
 // PRNG: everything a run does is derived from one 64-bit seed
 struct Rng
   {
   uint64_t s;
-  explicit Rng(uint64_t seed) : s(seed) {}
+  explicit Rng(uint64_t seed = 0) : s(seed) {}
   uint64_t next()
     {
     uint64_t z = (s += 0x9e3779b97f4a7c15ull);
@@ -65,149 +65,13 @@ static uint64_t mix64(uint64_t h, uint64_t v)
   return h ^ (h >> 32);
   }
 
-// ---------------------------------------------------------------------------------------------
-// operation catalogue: every public entry point as bits = op(bits, bits)
-enum Kind : uint8_t { K_NONE, K_FX, K_I8, K_I16, K_I32, K_I64, K_U8, K_U16, K_U32, K_U64, K_F32, K_F64,
-                      K_SH, K_ANG, K_IDX8, K_IDX360 };
-
-template<class T> static inline T arg(uint64_t b)
-  {
-  if constexpr (std::is_same_v<T, fixed_t>) return as_fixed(static_cast<int64_t>(b));
-  else if constexpr (std::is_same_v<T, float>) { uint32_t u = static_cast<uint32_t>(b); float f; std::memcpy(&f, &u, 4); return f; }
-  else if constexpr (std::is_same_v<T, double>) { double d; std::memcpy(&d, &b, 8); return d; }
-  else return static_cast<T>(b);
-  }
-template<class R> static inline uint64_t bits(R r)
-  {
-  if constexpr (std::is_same_v<R, fixed_t>) return static_cast<uint64_t>(r.v);
-  else if constexpr (std::is_same_v<R, float>) { uint32_t u; std::memcpy(&u, &r, 4); return u; }
-  else if constexpr (std::is_same_v<R, double>) { uint64_t u; std::memcpy(&u, &r, 8); return u; }
-  else if constexpr (std::is_same_v<R, bool>) return r ? 1u : 0u;
-  else return static_cast<uint64_t>(static_cast<int64_t>(r));
-  }
-
-using opfn = uint64_t (*)(uint64_t, uint64_t);
-using okfn = bool (*)(uint64_t, uint64_t);
-struct Op { std::string name; Kind ka, kb; opfn fn; okfn ok; int family; };
-static std::vector<Op> g_ops;
-
-static bool ok_always(uint64_t, uint64_t) { return true; }
-// input-only traps of the unchanged tree (DESIGN 6, C03) are kept out of the workload
-static bool ok_b_not_m1(uint64_t, uint64_t b) { return static_cast<int64_t>(b) != -1; }
-static bool ok_a_not_m1(uint64_t a, uint64_t) { return static_cast<int64_t>(a) != -1; }
-static bool ok_a_not_min(uint64_t a, uint64_t) { return static_cast<int64_t>(a) != INT64_MIN; }
-static bool ok_f32_div(uint64_t, uint64_t b) { float f = arg<float>(b); return !(f < 0.0f && f > -1e-4f); }
-
-enum Family { FAM_ARITH, FAM_CONV, FAM_MISC, FAM_SQRT, FAM_TRIG, FAM_ATRIG, FAM_ANGLE, FAM_TABLE };
-
-static void reg(std::string n, Kind a, Kind b, opfn f, int fam, okfn ok = ok_always)
-  { g_ops.push_back(Op{std::move(n), a, b, f, ok, fam}); }
-
-#define FXU(NAME, FAM, EXPR) reg(NAME, K_FX, K_NONE, [](uint64_t A, uint64_t) -> uint64_t { fixed_t a = arg<fixed_t>(A); (void)a; return bits(EXPR); }, FAM)
-#define FXB(NAME, FAM, EXPR, OK) reg(NAME, K_FX, K_FX, [](uint64_t A, uint64_t B) -> uint64_t { fixed_t a = arg<fixed_t>(A), b = arg<fixed_t>(B); (void)a; (void)b; return bits(EXPR); }, FAM, OK)
-
-template<class T> static void reg_mixed(const char * tn, Kind k)
-  {
-  std::string s(tn);
-  constexpr bool is_int = std::is_integral_v<T>;
-  constexpr bool is_dbl = std::is_same_v<T, double>;
-  okfn div_ft = is_int ? ok_a_not_min : (is_dbl ? ok_always : ok_f32_div);   // fixed / T
-  okfn div_tf = is_dbl ? ok_always : ok_a_not_m1;                            // T / fixed   (A is the fixed operand)
-  reg("add_fx_" + s, K_FX, k, [](uint64_t A, uint64_t B) -> uint64_t { return bits(arg<fixed_t>(A) + arg<T>(B)); }, FAM_ARITH);
-  reg("add_" + s + "_fx", K_FX, k, [](uint64_t A, uint64_t B) -> uint64_t { return bits(arg<T>(B) + arg<fixed_t>(A)); }, FAM_ARITH);
-  reg("sub_fx_" + s, K_FX, k, [](uint64_t A, uint64_t B) -> uint64_t { return bits(arg<fixed_t>(A) - arg<T>(B)); }, FAM_ARITH);
-  reg("sub_" + s + "_fx", K_FX, k, [](uint64_t A, uint64_t B) -> uint64_t { return bits(arg<T>(B) - arg<fixed_t>(A)); }, FAM_ARITH);
-  reg("mul_fx_" + s, K_FX, k, [](uint64_t A, uint64_t B) -> uint64_t { return bits(arg<fixed_t>(A) * arg<T>(B)); }, FAM_ARITH);
-  reg("mul_" + s + "_fx", K_FX, k, [](uint64_t A, uint64_t B) -> uint64_t { return bits(arg<T>(B) * arg<fixed_t>(A)); }, FAM_ARITH);
-  reg("div_fx_" + s, K_FX, k, [](uint64_t A, uint64_t B) -> uint64_t { return bits(arg<fixed_t>(A) / arg<T>(B)); }, FAM_ARITH, div_ft);
-  reg("div_" + s + "_fx", K_FX, k, [](uint64_t A, uint64_t B) -> uint64_t { return bits(arg<T>(B) / arg<fixed_t>(A)); }, FAM_ARITH, div_tf);
-  if constexpr (!is_dbl)
-    {
-    reg("addeq_fx_" + s, K_FX, k, [](uint64_t A, uint64_t B) -> uint64_t { fixed_t a = arg<fixed_t>(A); a += arg<T>(B); return bits(a); }, FAM_ARITH);
-    reg("subeq_fx_" + s, K_FX, k, [](uint64_t A, uint64_t B) -> uint64_t { fixed_t a = arg<fixed_t>(A); a -= arg<T>(B); return bits(a); }, FAM_ARITH);
-    reg("muleq_fx_" + s, K_FX, k, [](uint64_t A, uint64_t B) -> uint64_t { fixed_t a = arg<fixed_t>(A); a *= arg<T>(B); return bits(a); }, FAM_ARITH);
-    reg("diveq_fx_" + s, K_FX, k, [](uint64_t A, uint64_t B) -> uint64_t { fixed_t a = arg<fixed_t>(A); a /= arg<T>(B); return bits(a); }, FAM_ARITH, div_ft);
-    }
-  reg("ctor_" + s, k, K_NONE, [](uint64_t A, uint64_t) -> uint64_t { return bits(fixed_t{arg<T>(A)}); }, FAM_CONV);
-  reg("to_" + s, K_FX, K_NONE, [](uint64_t A, uint64_t) -> uint64_t { return bits(static_cast<T>(arg<fixed_t>(A))); }, FAM_CONV);
-  reg("to_arith_" + s, K_FX, K_NONE, [](uint64_t A, uint64_t) -> uint64_t { return bits(fixedmath::fixed_to_arithmetic<T>(arg<fixed_t>(A))); }, FAM_CONV);
-  }
-
-template<class T> static void reg_angle(const char * tn, Kind k)
-  {
-  std::string s(tn);
-  reg("sin_angle_" + s, k, K_NONE, [](uint64_t A, uint64_t) -> uint64_t { return bits(fixedmath::sin_angle(arg<T>(A))); }, FAM_ANGLE);
-  reg("cos_angle_" + s, k, K_NONE, [](uint64_t A, uint64_t) -> uint64_t { return bits(fixedmath::cos_angle(arg<T>(A))); }, FAM_ANGLE);
-  reg("tan_angle_" + s, k, K_NONE, [](uint64_t A, uint64_t) -> uint64_t { return bits(fixedmath::tan_angle(arg<T>(A))); }, FAM_ANGLE);
-  if constexpr (std::is_integral_v<T>)
-    reg("angle_to_radians_" + s, k, K_NONE, [](uint64_t A, uint64_t) -> uint64_t { return bits(fixedmath::angle_to_radians(arg<T>(A))); }, FAM_ANGLE);
-  }
-
-static void build_catalogue()
-  {
-  using namespace fixedmath;
-  FXB("add", FAM_ARITH, a + b, ok_always);
-  FXB("sub", FAM_ARITH, a - b, ok_always);
-  FXB("mul", FAM_ARITH, a * b, ok_always);
-  FXB("div", FAM_ARITH, a / b, ok_b_not_m1);
-  FXB("addeq", FAM_ARITH, (a += b), ok_always);
-  FXB("subeq", FAM_ARITH, (a -= b), ok_always);
-  FXB("muleq", FAM_ARITH, (a *= b), ok_always);
-  FXB("diveq", FAM_ARITH, (a /= b), ok_b_not_m1);
-  FXB("fixed_addition", FAM_ARITH, fixed_addition(a, b), ok_always);
-  FXB("fixed_substract", FAM_ARITH, fixed_substract(a, b), ok_always);
-  FXB("fixed_multiply", FAM_ARITH, fixed_multiply(a, b), ok_always);
-  FXB("fixed_division", FAM_ARITH, fixed_division(a, b), ok_b_not_m1);
-  FXB("and", FAM_MISC, a & b, ok_always);
-  FXB("eq", FAM_MISC, a == b, ok_always);
-  FXB("ne", FAM_MISC, a != b, ok_always);
-  FXB("lt", FAM_MISC, a < b, ok_always);
-  FXB("le", FAM_MISC, a <= b, ok_always);
-  FXB("gt", FAM_MISC, a > b, ok_always);
-  FXB("ge", FAM_MISC, a >= b, ok_always);
-  FXB("hypot", FAM_SQRT, hypot(a, b), ok_always);
-  FXB("atan2", FAM_ATRIG, atan2(a, b), ok_b_not_m1);
-  FXB("hypot_aprox", FAM_TABLE, hypot_aprox(a, b), ok_always);
-  FXU("neg", FAM_MISC, -a);
-  FXU("abs", FAM_MISC, abs(a));
-  FXU("isnan", FAM_MISC, isnan(a));
-  FXU("ceil", FAM_MISC, ceil(a));
-  FXU("floor", FAM_MISC, floor(a));
-  FXU("sqrt", FAM_SQRT, sqrt(a));
-  FXU("sin", FAM_TRIG, sin(a));
-  FXU("cos", FAM_TRIG, cos(a));
-  FXU("tan", FAM_TRIG, tan(a));
-  FXU("asin", FAM_ATRIG, asin(a));
-  FXU("acos", FAM_ATRIG, acos(a));
-  FXU("atan", FAM_ATRIG, atan(a));
-  FXU("sqrt_aprox", FAM_TABLE, sqrt_aprox(a));
-  FXU("atan_index_aprox", FAM_TABLE, atan_index_aprox(a));
-  FXU("atan_aprox", FAM_TABLE, atan_aprox(a));
-  reg("shr", K_FX, K_SH, [](uint64_t A, uint64_t B) -> uint64_t { return bits(arg<fixed_t>(A) >> arg<int>(B)); }, FAM_MISC);
-  reg("shl", K_FX, K_SH, [](uint64_t A, uint64_t B) -> uint64_t { return bits(arg<fixed_t>(A) << arg<int>(B)); }, FAM_MISC);
-  reg_mixed<int8_t>("i8", K_I8);     reg_mixed<int16_t>("i16", K_I16);
-  reg_mixed<int32_t>("i32", K_I32);  reg_mixed<int64_t>("i64", K_I64);
-  reg_mixed<uint8_t>("u8", K_U8);    reg_mixed<uint16_t>("u16", K_U16);
-  reg_mixed<uint32_t>("u32", K_U32); reg_mixed<uint64_t>("u64", K_U64);
-  reg_mixed<float>("f32", K_F32);    reg_mixed<double>("f64", K_F64);
-  reg_angle<int8_t>("i8", K_I8);     reg_angle<int16_t>("i16", K_I16);
-  reg_angle<int32_t>("i32", K_I32);  reg_angle<int64_t>("i64", K_I64);
-  reg_angle<uint8_t>("u8", K_U8);    reg_angle<uint16_t>("u16", K_U16);
-  reg_angle<uint32_t>("u32", K_U32); reg_angle<uint64_t>("u64", K_U64);
-  reg_angle<float>("f32", K_F32);    reg_angle<fixed_t>("fx", K_FX);
-  reg("sin_angle_aprox", K_ANG, K_NONE, [](uint64_t A, uint64_t) -> uint64_t { return bits(fixedmath::sin_angle_aprox(arg<int32_t>(A))); }, FAM_TABLE);
-  reg("cos_angle_aprox", K_ANG, K_NONE, [](uint64_t A, uint64_t) -> uint64_t { return bits(fixedmath::cos_angle_aprox(arg<int32_t>(A))); }, FAM_TABLE);
-  reg("tan_tab", K_IDX8, K_NONE, [](uint64_t A, uint64_t) -> uint64_t { return bits(fixedmath::tan_tab(arg<uint8_t>(A))); }, FAM_TABLE);
-  reg("square_root_tab", K_IDX8, K_NONE, [](uint64_t A, uint64_t) -> uint64_t { return bits(fixedmath::square_root_tab(arg<uint8_t>(A))); }, FAM_TABLE);
-  reg("sin_angle_tab", K_IDX360, K_NONE, [](uint64_t A, uint64_t) -> uint64_t { return bits(fixedmath::sin_angle_tab(arg<uint16_t>(A))); }, FAM_TABLE);
-  reg("cos_angle_tab", K_IDX360, K_NONE, [](uint64_t A, uint64_t) -> uint64_t { return bits(fixedmath::cos_angle_tab(arg<uint16_t>(A))); }, FAM_TABLE);
-  }
-
 static int op_index(const std::string & n)
   {
   for (size_t i = 0; i < g_ops.size(); ++i) if (g_ops[i].name == n) return static_cast<int>(i);
   return -1;
   }
+static uint64_t fbits(float f) { uint32_t u; std::memcpy(&u, &f, 4); return u; }
+static uint64_t dbits(double d) { uint64_t u; std::memcpy(&u, &d, 8); return u; }
 
 // ---------------------------------------------------------------------------------------------
 // workload generation
@@ -270,8 +134,7 @@ static uint64_t fresh_arg(Rng & r, Kind k)
       default: v = static_cast<int64_t>(r.next()); break;
       }
     if (!is_signed && v < 0) v = -v;
-    (void)lo; (void)hi;
-    return static_cast<uint64_t>(v);       // arg<T>() truncates to the operand type
+    return static_cast<uint64_t>(v);       // the operation truncates to its operand type
     };
   switch (k)
     {
@@ -295,7 +158,7 @@ static uint64_t fresh_arg(Rng & r, Kind k)
         case 2: f = static_cast<float>(static_cast<int64_t>(r.below(721)) - 360); break;
         default: { uint32_t u = static_cast<uint32_t>(r.next()); std::memcpy(&f, &u, 4); } break;
         }
-      return bits(f);
+      return fbits(f);
       }
     case K_F64:
       {
@@ -307,7 +170,7 @@ static uint64_t fresh_arg(Rng & r, Kind k)
         case 1: d = static_cast<double>(static_cast<int64_t>(r.below(1ull << 40)) - (1ll << 39)) / 65536.; break;
         default: { uint64_t u = r.next(); std::memcpy(&d, &u, 8); } break;
         }
-      return bits(d);
+      return dbits(d);
       }
     case K_SH: return r.chance(85) ? r.below(64) : static_cast<uint64_t>(-static_cast<int64_t>(1 + r.below(40)));
     case K_ANG: return r.chance(60) ? r.below(1000) : r.below(0x7fffffffull);
@@ -332,12 +195,13 @@ static uint64_t alias_arg(Rng & r, Kind k, uint64_t v, AliasKind & kind)
 struct Item { uint8_t client; uint16_t op; uint64_t a, b; uint8_t alias; int16_t alias_of; };
 struct Plan { int clients; std::vector<Item> items; uint64_t hash; bool nontrivial; };
 
-static Plan gen_plan(uint64_t seed)
+static Plan gen_plan(uint64_t seed, int min_clients)
   {
   Rng r(seed ^ 0x5851f42d4c957f2dull);
   Plan p;
   unsigned kc = r.below(100);
   p.clients = kc < 30 ? 1 : kc < 65 ? 2 : kc < 85 ? 3 : 4;
+  if (p.clients < min_clients) p.clients = min_clients;
   size_t n = 6 + r.below(40);
   // swarm: a few focus operations per run so the same entry point is hit repeatedly
   size_t nfocus = 1 + r.below(4);
@@ -402,21 +266,142 @@ static Plan gen_plan(uint64_t seed)
   }
 
 // ---------------------------------------------------------------------------------------------
-// execution: simulated clients are real threads, released one call at a time
+// schedules: a list of segments; the calls of one segment are in flight together (one per client)
+static const uint8_t SW_START = 255;
+static const uint32_t SW_AT_END = 0xffffffffu;
+struct Switch { uint8_t from; uint32_t idx; uint8_t to; };   // from = SW_START: who runs first; idx = SW_AT_END: when from's call returns
+struct Segment { std::vector<int> items; std::vector<Switch> script; unsigned den; int budget; };
+struct Schedule { int clients; std::vector<Item> items; std::vector<Segment> segs; };
+
+static Schedule serial_schedule(const std::vector<Item> & items, const std::vector<int> & order, int clients)
+  {
+  Schedule s; s.clients = clients; s.items = items;
+  for (int i : order) { Segment g; g.items = {i}; g.den = 0; g.budget = 0; s.segs.push_back(g); }
+  return s;
+  }
+
+// group some adjacent calls of distinct clients into concurrent segments (seeded)
+static Schedule fine_schedule(const Plan & p, uint64_t sched_seed)
+  {
+  Rng r(sched_seed ^ 0x2545f4914f6cdd1dull);
+  Schedule s; s.clients = p.clients; s.items = p.items;
+  static const unsigned dens[] = {2, 2, 4, 8, 16, 64};
+  size_t i = 0, n = p.items.size();
+  while (i < n)
+    {
+    Segment g; g.den = dens[r.below(sizeof(dens) / sizeof(dens[0]))]; g.budget = 1 + static_cast<int>(r.below(6));
+    g.items.push_back(static_cast<int>(i));
+    size_t j = i + 1;
+    if (r.chance(70))
+      {
+      size_t want = r.chance(75) ? 2 : 3;
+      while (j < n && g.items.size() < want)
+        {
+        bool clash = false;
+        for (int k : g.items) if (p.items[k].client == p.items[j].client) clash = true;
+        if (clash) break;
+        g.items.push_back(static_cast<int>(j)); ++j;
+        }
+      }
+    s.segs.push_back(g);
+    i = j;
+    }
+  return s;
+  }
+
+// ---------------------------------------------------------------------------------------------
+// execution (child side): simulated clients are real threads; exactly one holds the baton
 struct Res { uint32_t status; uint32_t pad; uint64_t bits; };      // status 0 = returned, else signal number, 255 = not executed
 static inline bool same(const Res & x, const Res & y) { return x.status == y.status && (x.status != 0 || x.bits == y.bits); }
+struct TraceRec { uint32_t seg; uint32_t from; uint32_t idx; uint32_t to; };
 
 static thread_local sigjmp_buf tl_env;
 static thread_local volatile sig_atomic_t tl_armed = 0;
+static thread_local int tl_client = -1;
+static thread_local bool tl_in_call = false;
+static thread_local uintptr_t tl_stack_lo = 0, tl_stack_hi = 0;
+static thread_local uint32_t tl_yield_idx = 0;
+
 static void on_signal(int sig)
   {
   if (tl_armed) { tl_armed = 0; siglongjmp(tl_env, sig); }
   signal(sig, SIG_DFL); raise(sig);
   }
 
+enum { ST_OUT = 0, ST_PENDING = 1, ST_RUNNING = 2, ST_DONE = 3 };
 struct ClientSlot { sem_t go; const Item * item; Res res; bool quit; };
 static ClientSlot g_slots[8];
 static sem_t g_done;
+static struct
+  {
+  bool active = false;          // a multi-call segment is in flight
+  bool scripted = false;
+  int nclients = 0;
+  int state[8] = {0};
+  Rng rng;
+  unsigned den = 0; int budget = 0;
+  const std::vector<Switch> * script = nullptr;
+  std::vector<char> used;
+  uint32_t seg_index = 0;
+  std::vector<TraceRec> trace;
+  uint64_t yields = 0, switches = 0;
+  } g_fine;
+
+static int pick_runnable(int me, bool random_pick)
+  {
+  int cand[8], n = 0;
+  for (int c = 0; c < g_fine.nclients; ++c)
+    if (c != me && (g_fine.state[c] == ST_PENDING || g_fine.state[c] == ST_RUNNING)) cand[n++] = c;
+  if (!n) return -1;
+  return random_pick ? cand[g_fine.rng.below(n)] : cand[0];
+  }
+static int script_lookup(uint8_t from, uint32_t idx)
+  {
+  if (!g_fine.script) return -1;
+  for (size_t k = 0; k < g_fine.script->size(); ++k)
+    {
+    const Switch & w = (*g_fine.script)[k];
+    if (!g_fine.used[k] && w.from == from && w.idx == idx) { g_fine.used[k] = 1; return w.to; }
+    }
+  return -1;
+  }
+static void handoff(int me, int target)
+  {
+  ++g_fine.switches;
+  sem_post(&g_slots[target].go);
+  while (sem_wait(&g_slots[me].go) != 0 && errno == EINTR) {}
+  }
+
+extern "C" int hsim_in_call() { return tl_in_call && g_fine.active; }
+
+// called (through sim/tsan_shim.cc) before every instrumented memory access of library code
+extern "C" void hsim_yield(const void * addr, int /*is_write*/)
+  {
+  if (!tl_in_call || !g_fine.active) return;
+  uintptr_t a = reinterpret_cast<uintptr_t>(addr);
+  if (a >= tl_stack_lo && a < tl_stack_hi) return;             // the caller's own stack: private by construction
+  uint32_t idx = tl_yield_idx++;
+  ++g_fine.yields;
+  int me = tl_client, target = -1;
+  if (g_fine.scripted) target = script_lookup(static_cast<uint8_t>(me), idx);
+  else if (g_fine.budget > 0 && g_fine.den && g_fine.rng.below(g_fine.den) == 0) target = pick_runnable(me, true);
+  if (target < 0 || target == me || target >= g_fine.nclients) return;
+  if (g_fine.state[target] != ST_PENDING && g_fine.state[target] != ST_RUNNING) return;
+  if (!g_fine.scripted) { --g_fine.budget; g_fine.trace.push_back(TraceRec{g_fine.seg_index, static_cast<uint32_t>(me), idx, static_cast<uint32_t>(target)}); }
+  handoff(me, target);
+  }
+
+// a simulated call that must wait for another caller (mutex, guarded static): pass the baton until pred holds
+extern "C" void hsim_wait_until(int (*pred)(void *), void * arg)
+  {
+  int me = tl_client;
+  for (int spins = 0; !pred(arg); ++spins)
+    {
+    int target = pick_runnable(me, false);
+    if (target < 0 || spins > 100000) _exit(5);                // nobody can make progress: report as a hung child
+    handoff(me, target);
+    }
+  }
 
 static Res call_once(const Item & it)
   {
@@ -424,59 +409,134 @@ static Res call_once(const Item & it)
   int sig = sigsetjmp(tl_env, 1);
   if (sig == 0)
     {
-    tl_armed = 1;
+    tl_armed = 1; tl_yield_idx = 0; tl_in_call = true;
     uint64_t v = g_ops[it.op].fn(it.a, it.b);
-    tl_armed = 0;
+    tl_in_call = false; tl_armed = 0;
     r.status = 0; r.bits = v;
     }
-  else { r.status = static_cast<uint32_t>(sig); r.bits = 0; }
+  else { tl_in_call = false; r.status = static_cast<uint32_t>(sig); r.bits = 0; }
   return r;
   }
 
 static void * client_main(void * p)
   {
   ClientSlot * s = static_cast<ClientSlot *>(p);
+  tl_client = static_cast<int>(s - g_slots);
+  pthread_attr_t at; void * sa = nullptr; size_t ss = 0;
+  if (pthread_getattr_np(pthread_self(), &at) == 0) { pthread_attr_getstack(&at, &sa, &ss); pthread_attr_destroy(&at); }
+  tl_stack_lo = reinterpret_cast<uintptr_t>(sa); tl_stack_hi = tl_stack_lo + ss;
   for (;;)
     {
     while (sem_wait(&s->go) != 0 && errno == EINTR) {}
     if (s->quit) return nullptr;
+    int me = tl_client;
+    if (g_fine.active) g_fine.state[me] = ST_RUNNING;
     s->res = call_once(*s->item);
-    sem_post(&g_done);
+    if (!g_fine.active) { sem_post(&g_done); continue; }
+    g_fine.state[me] = ST_DONE;
+    int next = -1;
+    if (g_fine.scripted)
+      {
+      next = script_lookup(static_cast<uint8_t>(me), SW_AT_END);
+      if (next >= 0 && (next >= g_fine.nclients || (g_fine.state[next] != ST_PENDING && g_fine.state[next] != ST_RUNNING))) next = -1;
+      if (next < 0) next = pick_runnable(me, false);
+      }
+    else
+      {
+      next = pick_runnable(me, true);
+      if (next >= 0) g_fine.trace.push_back(TraceRec{g_fine.seg_index, static_cast<uint32_t>(me), SW_AT_END, static_cast<uint32_t>(next)});
+      }
+    if (next >= 0) sem_post(&g_slots[next].go); else sem_post(&g_done);
     }
   }
 
-// runs in a forked child: execute items[order[0..]] on their clients, write Res for each to fd, exit
-[[noreturn]] static void child_execute(const std::vector<Item> & items, const std::vector<int> & order, int clients, int fd)
+static void write_all(int fd, const void * p, size_t n)
+  {
+  const char * b = static_cast<const char *>(p); size_t off = 0;
+  while (off < n) { ssize_t w = write(fd, b + off, n - off); if (w <= 0) _exit(4); off += static_cast<size_t>(w); }
+  }
+
+// runs in a forked child: execute the schedule, write Res per item index + the decision trace, exit
+[[noreturn]] static void child_execute(const Schedule & sc, bool scripted, uint64_t sched_seed, int fd)
   {
   struct sigaction sa{};
   sa.sa_handler = on_signal; sigemptyset(&sa.sa_mask); sa.sa_flags = SA_NODEFER;
   sigaction(SIGFPE, &sa, nullptr); sigaction(SIGSEGV, &sa, nullptr); sigaction(SIGBUS, &sa, nullptr); sigaction(SIGILL, &sa, nullptr);
   sem_init(&g_done, 0, 0);
   pthread_t th[8];
-  for (int c = 0; c < clients; ++c)
+  for (int c = 0; c < sc.clients; ++c)
     {
     sem_init(&g_slots[c].go, 0, 0); g_slots[c].quit = false;
     if (pthread_create(&th[c], nullptr, client_main, &g_slots[c]) != 0) _exit(3);
     }
-  std::vector<Res> out(order.size());
-  for (size_t i = 0; i < order.size(); ++i)
+  g_fine.nclients = sc.clients; g_fine.scripted = scripted; g_fine.rng = Rng(sched_seed ^ 0x9e3779b97f4a7c15ull);
+  std::vector<Res> out(sc.items.size(), Res{255, 0, 0});
+  for (size_t si = 0; si < sc.segs.size(); ++si)
     {
-    const Item & it = items[order[i]];
-    ClientSlot & s = g_slots[it.client];
-    s.item = &it;
-    sem_post(&s.go);
+    const Segment & g = sc.segs[si];
+    if (g.items.empty()) continue;
+    g_fine.seg_index = static_cast<uint32_t>(si);
+    if (g.items.size() == 1)
+      {
+      g_fine.active = false;
+      const Item & it = sc.items[g.items[0]];
+      ClientSlot & s = g_slots[it.client];
+      s.item = &it; sem_post(&s.go);
+      while (sem_wait(&g_done) != 0 && errno == EINTR) {}
+      out[g.items[0]] = s.res;
+      continue;
+      }
+    for (int c = 0; c < 8; ++c) g_fine.state[c] = ST_OUT;
+    for (int k : g.items) { const Item & it = sc.items[k]; g_slots[it.client].item = &it; g_fine.state[it.client] = ST_PENDING; }
+    g_fine.den = g.den; g_fine.budget = g.budget; g_fine.script = &g.script; g_fine.used.assign(g.script.size(), 0);
+    int first = -1;
+    if (scripted)
+      {
+      first = script_lookup(SW_START, 0);
+      if (first >= 0 && (first >= sc.clients || g_fine.state[first] != ST_PENDING)) first = -1;
+      if (first < 0) first = sc.items[g.items[0]].client;
+      }
+    else
+      {
+      first = sc.items[g.items[g_fine.rng.below(g.items.size())]].client;
+      g_fine.trace.push_back(TraceRec{static_cast<uint32_t>(si), SW_START, 0, static_cast<uint32_t>(first)});
+      }
+    g_fine.active = true;
+    sem_post(&g_slots[first].go);
     while (sem_wait(&g_done) != 0 && errno == EINTR) {}
-    out[i] = s.res;
+    g_fine.active = false;
+    for (int k : g.items) out[k] = g_slots[sc.items[k].client].res;
     }
-  size_t total = out.size() * sizeof(Res), off = 0;
-  const char * buf = reinterpret_cast<const char *>(out.data());
-  while (off < total) { ssize_t w = write(fd, buf + off, total - off); if (w <= 0) _exit(4); off += static_cast<size_t>(w); }
+  uint64_t hdr[3] = {g_fine.trace.size(), g_fine.yields, g_fine.switches};
+  write_all(fd, out.data(), out.size() * sizeof(Res));
+  write_all(fd, hdr, sizeof hdr);
+  if (!g_fine.trace.empty()) write_all(fd, g_fine.trace.data(), g_fine.trace.size() * sizeof(TraceRec));
   _exit(0);
   }
 
-static uint64_t g_forks = 0;
-// zygote side: fork a pristine child, run the schedule, collect results (index i = order[i])
-static std::vector<Res> run_history(const std::vector<Item> & items, const std::vector<int> & order, int clients)
+// ---------------------------------------------------------------------------------------------
+// zygote side
+static uint64_t g_forks = 0, g_hung = 0, g_yields_total = 0, g_switches_total = 0;
+struct Outcome { std::vector<Res> res; std::vector<TraceRec> trace; bool complete; };
+
+static bool read_all(int fd, void * p, size_t n, int timeout_ms)
+  {
+  char * b = static_cast<char *>(p); size_t off = 0;
+  while (off < n)
+    {
+    struct pollfd pf{fd, POLLIN, 0};
+    int pr = poll(&pf, 1, timeout_ms);
+    if (pr == 0) return false;
+    if (pr < 0) { if (errno == EINTR) continue; return false; }
+    ssize_t g = read(fd, b + off, n - off);
+    if (g == 0) return false;
+    if (g < 0) { if (errno == EINTR) continue; return false; }
+    off += static_cast<size_t>(g);
+    }
+  return true;
+  }
+
+static Outcome run_schedule(const Schedule & sc, bool scripted, uint64_t sched_seed)
   {
   int pf[2];
   if (pipe(pf) != 0) { perror("pipe"); exit(2); }
@@ -484,22 +544,30 @@ static std::vector<Res> run_history(const std::vector<Item> & items, const std::
   pid_t pid = fork();
   if (pid < 0) { perror("fork"); exit(2); }
   ++g_forks;
-  if (pid == 0) { close(pf[0]); child_execute(items, order, clients, pf[1]); }
+  if (pid == 0) { close(pf[0]); child_execute(sc, scripted, sched_seed, pf[1]); }
   close(pf[1]);
-  std::vector<Res> out(order.size(), Res{255, 0, 0});
-  size_t total = out.size() * sizeof(Res), off = 0;
-  char * buf = reinterpret_cast<char *>(out.data());
-  while (off < total) { ssize_t g = read(pf[0], buf + off, total - off); if (g <= 0) { if (g < 0 && errno == EINTR) continue; break; } off += static_cast<size_t>(g); }
+  Outcome o; o.res.assign(sc.items.size(), Res{255, 0, 0}); o.complete = false;
+  uint64_t hdr[3] = {0, 0, 0};
+  const int limit_ms = 20000;
+  if (read_all(pf[0], o.res.data(), o.res.size() * sizeof(Res), limit_ms) && read_all(pf[0], hdr, sizeof hdr, limit_ms))
+    {
+    o.trace.resize(hdr[0]);
+    if (hdr[0] == 0 || read_all(pf[0], o.trace.data(), hdr[0] * sizeof(TraceRec), limit_ms)) o.complete = true;
+    g_yields_total += hdr[1]; g_switches_total += hdr[2];
+    }
   close(pf[0]);
+  if (!o.complete) { kill(pid, SIGKILL); ++g_hung; for (auto & r : o.res) r = Res{255, 0, 0}; o.trace.clear(); }
   int st = 0; while (waitpid(pid, &st, 0) < 0 && errno == EINTR) {}
-  if (off != total) for (auto & r : out) r = Res{255, 0, 0};
-  return out;
+  return o;
   }
+
+static std::vector<Res> run_serial(const std::vector<Item> & items, const std::vector<int> & order, int clients)
+  { return run_schedule(serial_schedule(items, order, clients), true, 0).res; }
 
 static Res isolated(const Item & it)
   {
   std::vector<Item> one{it}; one[0].client = 0;
-  return run_history(one, std::vector<int>{0}, 1)[0];
+  return run_serial(one, std::vector<int>{0}, 1)[0];
   }
 
 // ---------------------------------------------------------------------------------------------
@@ -507,120 +575,240 @@ static std::string hex(uint64_t v) { char b[32]; snprintf(b, sizeof b, "0x%016" 
 static std::string res_json(const Res & r)
   { return std::string("{\"status\":") + std::to_string(r.status) + ",\"bits\":\"" + hex(r.bits) + "\"}"; }
 
-struct Finding { uint64_t seed; int clients; std::vector<Item> steps; Res iso, observed; std::string order; int tests; size_t original_len; };
-
-// does executing `hist` (indices into items, in order) and then `victim` give the victim something other than iso?
-static bool fails(const std::vector<Item> & items, const std::vector<int> & hist, int victim, int clients, const Res & iso, Res * seen)
+// does executing the (scripted) schedule give item `victim` something other than iso?
+static int g_tests = 0;
+static bool fails(const Schedule & sc, int victim, const Res & iso, Res * seen)
   {
-  std::vector<int> order(hist); order.push_back(victim);
-  std::vector<Res> r = run_history(items, order, clients);
-  if (seen) *seen = r.back();
-  return r.back().status != 255 && !same(r.back(), iso);
+  ++g_tests;
+  Outcome o = run_schedule(sc, true, 0);
+  if (seen) *seen = o.res[victim];
+  return o.complete && o.res[victim].status != 255 && !same(o.res[victim], iso);
   }
 
-static Finding minimise(uint64_t seed, const Plan & p, std::vector<int> hist, int victim, const Res & iso, const char * order_name)
+static void drop_client_from_script(Segment & g, uint8_t c)
   {
-  Finding f; f.seed = seed; f.clients = p.clients; f.iso = iso; f.order = order_name; f.tests = 0; f.original_len = hist.size() + 1;
-  // ddmin over the calls that precede the victim
+  std::vector<Switch> k;
+  for (const Switch & w : g.script) if (w.from != c && w.to != c) k.push_back(w);
+  g.script = k;
+  }
+
+// greedy reduction while the victim still differs from its isolated bits
+static Schedule minimise(Schedule sc, int victim, const Res & iso)
+  {
+  // everything after the victim's segment cannot matter
+  size_t vs = 0;
+  for (size_t s = 0; s < sc.segs.size(); ++s) for (int k : sc.segs[s].items) if (k == victim) vs = s;
+  sc.segs.resize(vs + 1);
+  // ddmin over whole earlier segments
+  {
+  std::vector<Segment> head(sc.segs.begin(), sc.segs.end() - 1); Segment last = sc.segs.back();
   size_t n = 2;
-  while (hist.size() >= 2)
+  while (head.size() >= 1)
     {
-    size_t chunk = (hist.size() + n - 1) / n;
-    bool reduced = false;
-    for (size_t start = 0; start < hist.size() && !reduced; start += chunk)
+    size_t chunk = (head.size() + n - 1) / n; bool reduced = false;
+    for (size_t start = 0; start < head.size() && !reduced; start += chunk)
       {
-      std::vector<int> comp;
-      for (size_t i = 0; i < hist.size(); ++i) if (i < start || i >= start + chunk) comp.push_back(hist[i]);
-      ++f.tests;
-      if (fails(p.items, comp, victim, p.clients, iso, nullptr)) { hist = comp; n = std::max<size_t>(n - 1, 2); reduced = true; }
+      Schedule t = sc; t.segs.clear();
+      for (size_t i = 0; i < head.size(); ++i) if (i < start || i >= start + chunk) t.segs.push_back(head[i]);
+      t.segs.push_back(last);
+      if (fails(t, victim, iso, nullptr)) { head.assign(t.segs.begin(), t.segs.end() - 1); n = std::max<size_t>(n - 1, 2); reduced = true; }
       }
-    if (!reduced) { if (n >= hist.size()) break; n = std::min(hist.size(), n * 2); }
+    if (!reduced) { if (n >= head.size()) break; n = std::min(head.size(), n * 2); }
     }
-  if (hist.size() == 1) { ++f.tests; if (fails(p.items, {}, victim, p.clients, iso, nullptr)) hist.clear(); }
-  Res seen{};
-  ++f.tests; fails(p.items, hist, victim, p.clients, iso, &seen);
-  f.observed = seen;
-  for (int i : hist) f.steps.push_back(p.items[i]);
-  f.steps.push_back(p.items[victim]);
-  // renumber clients densely so the replay needs no more threads than it uses
+  sc.segs = head; sc.segs.push_back(last);
+  }
+  // drop co-runners, then single switches, until nothing more can go
+  for (int pass = 0; pass < 4; ++pass)
+    {
+    bool changed = false;
+    for (size_t s = 0; s < sc.segs.size(); ++s)
+      for (size_t k = 0; k < sc.segs[s].items.size() && sc.segs[s].items.size() > 1; )
+        {
+        if (sc.segs[s].items[k] == victim) { ++k; continue; }
+        Schedule t = sc; uint8_t c = t.items[t.segs[s].items[k]].client;
+        t.segs[s].items.erase(t.segs[s].items.begin() + static_cast<long>(k)); drop_client_from_script(t.segs[s], c);
+        bool ok = fails(t, victim, iso, nullptr);
+        if (!ok)
+          {   // the removed call may have been the one that started the segment: try every remaining starter
+          bool has_start = false;
+          for (const Switch & w : t.segs[s].script) if (w.from == SW_START) has_start = true;
+          if (!has_start)
+            for (size_t q = 0; q < t.segs[s].items.size() && !ok; ++q)
+              {
+              Schedule u = t;
+              u.segs[s].script.insert(u.segs[s].script.begin(), Switch{SW_START, 0, u.items[u.segs[s].items[q]].client});
+              if (fails(u, victim, iso, nullptr)) { t = u; ok = true; }
+              }
+          }
+        if (ok) { sc = t; changed = true; } else ++k;
+        }
+    for (size_t s = 0; s < sc.segs.size(); ++s)
+      for (size_t k = 0; k < sc.segs[s].script.size(); )
+        {
+        Schedule t = sc; t.segs[s].script.erase(t.segs[s].script.begin() + static_cast<long>(k));
+        if (fails(t, victim, iso, nullptr)) { sc = t; changed = true; } else ++k;
+        }
+    if (!changed) break;
+    }
+  return sc;
+  }
+
+static std::string schedule_json(const Schedule & sc, int victim)
+  {
+  // renumber clients densely so a replay needs no more threads than it uses
   std::map<int, int> ren;
-  for (auto & s : f.steps) { if (!ren.count(s.client)) { int k = static_cast<int>(ren.size()); ren[s.client] = k; } s.client = static_cast<uint8_t>(ren[s.client]); }
-  f.clients = static_cast<int>(ren.size());
-  return f;
-  }
-
-static void print_finding(const Finding & f)
-  {
-  std::string s = "FOUND {\"seed\":" + std::to_string(f.seed) + ",\"build\":\"" HSIM_BUILD_CELL "\",\"clients\":" + std::to_string(f.clients) +
-                  ",\"failing_order\":\"" + f.order + "\",\"original_history_len\":" + std::to_string(f.original_len) +
-                  ",\"minimise_tests\":" + std::to_string(f.tests) + ",\"steps\":[";
-  for (size_t i = 0; i < f.steps.size(); ++i)
+  for (const Segment & g : sc.segs) for (int k : g.items) { int c = sc.items[k].client; if (!ren.count(c)) { int id = static_cast<int>(ren.size()); ren[c] = id; } }
+  std::string s = "\"clients\":" + std::to_string(ren.size()) + ",\"segments\":[";
+  int vseg = -1, vpos = -1;
+  for (size_t si = 0; si < sc.segs.size(); ++si)
     {
-    const Item & it = f.steps[i];
-    if (i) s += ",";
-    s += "{\"client\":" + std::to_string(it.client) + ",\"op\":\"" + g_ops[it.op].name + "\",\"a\":\"" + hex(it.a) + "\",\"b\":\"" + hex(it.b) + "\"}";
+    const Segment & g = sc.segs[si];
+    s += std::string(si ? "," : "") + "{\"calls\":[";
+    for (size_t k = 0; k < g.items.size(); ++k)
+      {
+      const Item & it = sc.items[g.items[k]];
+      if (g.items[k] == victim) { vseg = static_cast<int>(si); vpos = static_cast<int>(k); }
+      s += std::string(k ? "," : "") + "{\"client\":" + std::to_string(ren[it.client]) + ",\"op\":\"" + g_ops[it.op].name + "\",\"a\":\"" + hex(it.a) + "\",\"b\":\"" + hex(it.b) + "\"}";
+      }
+    s += "],\"script\":[";
+    bool first = true;
+    for (const Switch & w : g.script)
+      {
+      if (g.items.size() < 2) break;
+      if ((w.from != SW_START && !ren.count(w.from)) || !ren.count(w.to)) continue;
+      s += std::string(first ? "" : ",") + "{\"from\":" + std::to_string(w.from == SW_START ? 255 : ren[w.from]) + ",\"at_yield\":" +
+           (w.idx == SW_AT_END ? std::string("-1") : std::to_string(w.idx)) + ",\"to\":" + std::to_string(ren[w.to]) + "}";
+      first = false;
+      }
+    s += "]}";
     }
-  s += "],\"isolated\":" + res_json(f.iso) + ",\"observed\":" + res_json(f.observed) + "}";
-  puts(s.c_str()); fflush(stdout);
+  s += "],\"victim\":{\"segment\":" + std::to_string(vseg) + ",\"call\":" + std::to_string(vpos) + "}";
+  return s;
   }
 
-static int do_scan(uint64_t seed0, uint64_t count, const char * hashfile, uint64_t max_findings)
+static size_t count_calls(const Schedule & sc) { size_t n = 0; for (auto & g : sc.segs) n += g.items.size(); return n; }
+static size_t count_switches(const Schedule & sc) { size_t n = 0; for (auto & g : sc.segs) if (g.items.size() > 1) for (auto & w : g.script) if (w.from != SW_START && w.idx != SW_AT_END) ++n; return n; }
+
+// confirm, minimise and print one finding; returns true if it was stable
+static bool report(uint64_t seed, const char * mode, Schedule sc, int victim, const Res & iso)
   {
-  std::vector<uint64_t> per_op(g_ops.size(), 0);
+  g_tests = 0;
+  size_t calls0 = count_calls(sc), sw0 = count_switches(sc);
+  if (!fails(sc, victim, iso, nullptr)) { printf("UNSTABLE {\"seed\":%" PRIu64 ",\"mode\":\"%s\",\"item\":%d}\n", seed, mode, victim); fflush(stdout); return false; }
+  Schedule m = minimise(sc, victim, iso);
+  Res seen{};
+  if (!fails(m, victim, iso, &seen)) { printf("UNSTABLE {\"seed\":%" PRIu64 ",\"mode\":\"%s\",\"item\":%d}\n", seed, mode, victim); fflush(stdout); return false; }
+  std::string s = "FOUND {\"seed\":" + std::to_string(seed) + ",\"mode\":\"" + mode + "\",\"build\":\"" HSIM_BUILD_CELL "\"," + schedule_json(m, victim) +
+                  ",\"isolated\":" + res_json(iso) + ",\"observed\":" + res_json(seen) + ",\"original_calls\":" + std::to_string(calls0) +
+                  ",\"original_switches\":" + std::to_string(sw0) + ",\"minimised_calls\":" + std::to_string(count_calls(m)) +
+                  ",\"minimised_switches\":" + std::to_string(count_switches(m)) + ",\"minimise_tests\":" + std::to_string(g_tests) + "}";
+  puts(s.c_str()); fflush(stdout);
+  return true;
+  }
+
+static Schedule with_trace(Schedule sc, const std::vector<TraceRec> & tr)
+  {
+  for (auto & g : sc.segs) g.script.clear();
+  for (const TraceRec & t : tr) if (t.seg < sc.segs.size()) sc.segs[t.seg].script.push_back(Switch{static_cast<uint8_t>(t.from), t.idx, static_cast<uint8_t>(t.to)});
+  return sc;
+  }
+
+struct Stats
+  {
+  std::vector<uint64_t> per_op;
   uint64_t clients_hist[5] = {0, 0, 0, 0, 0};
-  uint64_t alias_same_client[AL_N] = {0}, alias_cross_client[AL_N] = {0};
-  uint64_t calls = 0, runs = 0, nontrivial = 0, iso_checks = 0, ab_disagreements = 0, signals_seen = 0, lost = 0, findings = 0;
+  uint64_t alias_same[AL_N] = {0}, alias_cross[AL_N] = {0};
+  uint64_t calls = 0, runs = 0, nontrivial = 0, iso_checks = 0, disagreements = 0, signals_seen = 0, lost = 0, findings = 0, unstable = 0;
+  uint64_t fine_execs = 0, concurrent_segments = 0, concurrent_calls = 0, preemptions = 0, distinct_traces = 0;
   uint64_t digest = 0;
-  std::unordered_set<uint64_t> adjacency;      // distinct (op, alias kind, cross-client?) x (op of source) combinations reached
-  FILE * hf = hashfile ? fopen(hashfile, "wb") : nullptr;
+  std::unordered_set<uint64_t> adjacency, traces;
   std::string sample;
-  for (uint64_t k = 0; k < count; ++k)
+  };
+
+static void account_plan(Stats & st, const Plan & p, const std::vector<Res> & ra, uint64_t seed, int execs)
+  {
+  size_t n = p.items.size();
+  ++st.runs; st.clients_hist[p.clients]++;
+  if (p.nontrivial) ++st.nontrivial;
+  uint64_t d = mix64(seed, p.hash);
+  for (size_t i = 0; i < n; ++i)
     {
-    uint64_t seed = seed0 + k;
-    Plan p = gen_plan(seed);
-    size_t n = p.items.size();
-    std::vector<int> fwd(n), rev(n);
-    for (size_t i = 0; i < n; ++i) { fwd[i] = static_cast<int>(i); rev[i] = static_cast<int>(n - 1 - i); }
-    std::vector<Res> ra = run_history(p.items, fwd, p.clients);
-    std::vector<Res> rb = run_history(p.items, rev, p.clients);
-    ++runs; calls += 2 * n; clients_hist[p.clients]++;
-    if (p.nontrivial) { ++nontrivial; if (hf) fwrite(&p.hash, 8, 1, hf); }
-    uint64_t d = mix64(seed, p.hash);
+    const Item & it = p.items[i];
+    st.per_op[it.op] += static_cast<uint64_t>(execs);
+    d = mix64(d, ra[i].status); d = mix64(d, ra[i].bits);
+    if (ra[i].status != 0 && ra[i].status != 255) ++st.signals_seen;
+    if (ra[i].status == 255) ++st.lost;
+    if (it.alias_of >= 0)
+      {
+      bool cross = p.items[it.alias_of].client != it.client;
+      (cross ? st.alias_cross : st.alias_same)[it.alias]++;
+      st.adjacency.insert(mix64(mix64(it.op, p.items[it.alias_of].op), (static_cast<uint64_t>(it.alias) << 1) | (cross ? 1u : 0u)));
+      }
+    }
+  st.calls += static_cast<uint64_t>(execs) * n;
+  st.digest += d;                                  // additive: independent of how seeds are split over workers
+  if (st.sample.empty() && p.nontrivial && n <= 12)
+    {
+    st.sample = "{\"seed\":" + std::to_string(seed) + ",\"clients\":" + std::to_string(p.clients) + ",\"schedule\":[";
     for (size_t i = 0; i < n; ++i)
       {
       const Item & it = p.items[i];
-      per_op[it.op] += 2;
-      d = mix64(d, ra[i].status); d = mix64(d, ra[i].bits);
-      if (ra[i].status != 0 && ra[i].status != 255) ++signals_seen;
-      if (ra[i].status == 255) ++lost;
-      if (it.alias_of >= 0)
-        {
-        bool cross = p.items[it.alias_of].client != it.client;
-        (cross ? alias_cross_client : alias_same_client)[it.alias]++;
-        adjacency.insert(mix64(mix64(it.op, p.items[it.alias_of].op), (static_cast<uint64_t>(it.alias) << 1) | (cross ? 1u : 0u)));
-        }
+      if (i) st.sample += ",";
+      st.sample += "\"c" + std::to_string(it.client) + ":" + g_ops[it.op].name + "(" + hex(it.a) + (g_ops[it.op].kb != K_NONE ? "," + hex(it.b) : "") + ")" +
+                   (it.alias_of >= 0 ? std::string(" ~") + alias_name[it.alias] + "#" + std::to_string(it.alias_of) : "") + " -> " +
+                   (ra[i].status ? "signal " + std::to_string(ra[i].status) : hex(ra[i].bits)) + "\"";
       }
-    digest += d;                                  // additive: independent of how seeds are split over workers
-    if (sample.empty() && p.nontrivial && n <= 12)
-      {
-      sample = "{\"seed\":" + std::to_string(seed) + ",\"clients\":" + std::to_string(p.clients) + ",\"schedule\":[";
-      for (size_t i = 0; i < n; ++i)
-        {
-        const Item & it = p.items[i];
-        if (i) sample += ",";
-        sample += "\"c" + std::to_string(it.client) + ":" + g_ops[it.op].name + "(" + hex(it.a) + (g_ops[it.op].kb != K_NONE ? "," + hex(it.b) : "") + ")" +
-                  (it.alias_of >= 0 ? std::string(" ~") + alias_name[it.alias] + "#" + std::to_string(it.alias_of) : "") + " -> " +
-                  (ra[i].status ? "signal " + std::to_string(ra[i].status) : hex(ra[i].bits)) + "\"";
-        }
-      sample += "]}";
-      }
+    st.sample += "]}";
+    }
+  }
+
+static void print_stats(const Stats & st, const char * mode, uint64_t seed0)
+  {
+  std::string s = "STATS {\"build\":\"" HSIM_BUILD_CELL "\",\"mode\":\"" + std::string(mode) + "\",\"instrumented\":" + std::to_string(HSIM_INSTRUMENTED) +
+                  ",\"seed0\":" + std::to_string(seed0) + ",\"runs\":" + std::to_string(st.runs) +
+                  ",\"calls\":" + std::to_string(st.calls) + ",\"forks\":" + std::to_string(g_forks) + ",\"nontrivial_runs\":" + std::to_string(st.nontrivial) +
+                  ",\"isolation_checks\":" + std::to_string(st.iso_checks) + ",\"disagreements\":" + std::to_string(st.disagreements) +
+                  ",\"signals_caught\":" + std::to_string(st.signals_seen) + ",\"items_lost\":" + std::to_string(st.lost) + ",\"hung_children\":" + std::to_string(g_hung) +
+                  ",\"findings\":" + std::to_string(st.findings) + ",\"unstable\":" + std::to_string(st.unstable) + ",\"digest\":\"" + hex(st.digest) +
+                  "\",\"fine_executions\":" + std::to_string(st.fine_execs) + ",\"concurrent_segments\":" + std::to_string(st.concurrent_segments) +
+                  ",\"concurrent_calls\":" + std::to_string(st.concurrent_calls) + ",\"yield_points\":" + std::to_string(g_yields_total) +
+                  ",\"preemptions\":" + std::to_string(st.preemptions) + ",\"baton_handoffs\":" + std::to_string(g_switches_total) +
+                  ",\"distinct_decision_traces\":" + std::to_string(st.traces.size()) +
+                  ",\"clients_hist\":[" + std::to_string(st.clients_hist[1]) + "," + std::to_string(st.clients_hist[2]) + "," + std::to_string(st.clients_hist[3]) + "," + std::to_string(st.clients_hist[4]) + "]";
+  s += ",\"alias_same_client\":{";
+  for (int a = 1; a < AL_N; ++a) s += std::string(a > 1 ? "," : "") + "\"" + alias_name[a] + "\":" + std::to_string(st.alias_same[a]);
+  s += "},\"alias_cross_client\":{";
+  for (int a = 1; a < AL_N; ++a) s += std::string(a > 1 ? "," : "") + "\"" + alias_name[a] + "\":" + std::to_string(st.alias_cross[a]);
+  s += "},\"per_op\":{";
+  for (size_t i = 0; i < g_ops.size(); ++i) s += std::string(i ? "," : "") + "\"" + g_ops[i].name + "\":" + std::to_string(st.per_op[i]);
+  s += "},\"adjacency_keys\":[";
+  { bool first = true; for (uint64_t a : st.adjacency) { s += std::string(first ? "" : ",") + "\"" + hex(a) + "\""; first = false; } }
+  s += "],\"sample\":" + (st.sample.empty() ? std::string("null") : st.sample) + "}";
+  puts(s.c_str());
+  }
+
+// whole-call mode: plan order vs reverse order vs isolation
+static int do_scan_serial(uint64_t seed0, uint64_t count, const char * hashfile, uint64_t max_findings)
+  {
+  Stats st; st.per_op.assign(g_ops.size(), 0);
+  FILE * hf = hashfile ? fopen(hashfile, "wb") : nullptr;
+  for (uint64_t k = 0; k < count; ++k)
+    {
+    uint64_t seed = seed0 + k;
+    Plan p = gen_plan(seed, 1);
+    size_t n = p.items.size();
+    std::vector<int> fwd(n), rev(n);
+    for (size_t i = 0; i < n; ++i) { fwd[i] = static_cast<int>(i); rev[i] = static_cast<int>(n - 1 - i); }
+    std::vector<Res> ra = run_serial(p.items, fwd, p.clients);
+    std::vector<Res> rb = run_serial(p.items, rev, p.clients);
+    account_plan(st, p, ra, seed, 2);
+    if (p.nontrivial && hf) fwrite(&p.hash, 8, 1, hf);
     // oracle 1: the two histories must agree item by item; any disagreement is confirmed against isolation
     std::vector<int> suspects;
     for (size_t i = 0; i < n; ++i)
       {
-      const Res & x = ra[i]; const Res & y = rb[n - 1 - i];
-      if (x.status == 255 || y.status == 255) continue;
-      if (!same(x, y)) { ++ab_disagreements; suspects.push_back(static_cast<int>(i)); }
+      if (ra[i].status == 255 || rb[i].status == 255) continue;
+      if (!same(ra[i], rb[i])) { ++st.disagreements; suspects.push_back(static_cast<int>(i)); }
       }
     // oracle 2: one seeded item per run is compared with its isolated execution directly
     {
@@ -630,67 +818,117 @@ static int do_scan(uint64_t seed0, uint64_t count, const char * hashfile, uint64
     }
     for (int i : suspects)
       {
-      Res iso = isolated(p.items[i]); ++iso_checks;
+      Res iso = isolated(p.items[i]); ++st.iso_checks;
       if (iso.status == 255) continue;
-      const Res & x = ra[i]; const Res & y = rb[n - 1 - i];
-      std::vector<int> hist; const char * oname = nullptr;
-      if (x.status != 255 && !same(x, iso)) { for (int j = 0; j < i; ++j) hist.push_back(j); oname = "plan order"; }
-      else if (y.status != 255 && !same(y, iso)) { for (int j = static_cast<int>(n) - 1; j > i; --j) hist.push_back(j); oname = "reverse order"; }
-      if (oname)
+      std::vector<int> order; bool bad = false;
+      if (ra[i].status != 255 && !same(ra[i], iso)) { for (int j = 0; j <= i; ++j) order.push_back(j); bad = true; }
+      else if (rb[i].status != 255 && !same(rb[i], iso)) { for (int j = static_cast<int>(n) - 1; j >= i; --j) order.push_back(j); bad = true; }
+      if (bad)
         {
-        Finding f = minimise(seed, p, hist, i, iso, oname);
-        if (f.observed.status != 255 && !same(f.observed, iso)) { print_finding(f); ++findings; }
-        else { printf("UNSTABLE {\"seed\":%" PRIu64 ",\"item\":%d}\n", seed, i); }
+        if (report(seed, "serial", serial_schedule(p.items, order, p.clients), i, iso)) ++st.findings; else ++st.unstable;
         break;
         }
       }
-    if (findings >= max_findings) break;
+    if (st.findings >= max_findings) break;
     }
   if (hf) fclose(hf);
-  std::string s = "STATS {\"build\":\"" HSIM_BUILD_CELL "\",\"seed0\":" + std::to_string(seed0) + ",\"runs\":" + std::to_string(runs) +
-                  ",\"calls\":" + std::to_string(calls) + ",\"forks\":" + std::to_string(g_forks) + ",\"nontrivial_runs\":" + std::to_string(nontrivial) +
-                  ",\"isolation_checks\":" + std::to_string(iso_checks) + ",\"ab_disagreements\":" + std::to_string(ab_disagreements) +
-                  ",\"signals_caught\":" + std::to_string(signals_seen) + ",\"items_lost\":" + std::to_string(lost) +
-                  ",\"findings\":" + std::to_string(findings) + ",\"digest\":\"" + hex(digest) + "\",\"distinct_adjacencies\":" + std::to_string(adjacency.size()) +
-                  ",\"clients_hist\":[" + std::to_string(clients_hist[1]) + "," + std::to_string(clients_hist[2]) + "," + std::to_string(clients_hist[3]) + "," + std::to_string(clients_hist[4]) + "]";
-  s += ",\"alias_same_client\":{";
-  for (int a = 1; a < AL_N; ++a) s += std::string(a > 1 ? "," : "") + "\"" + alias_name[a] + "\":" + std::to_string(alias_same_client[a]);
-  s += "},\"alias_cross_client\":{";
-  for (int a = 1; a < AL_N; ++a) s += std::string(a > 1 ? "," : "") + "\"" + alias_name[a] + "\":" + std::to_string(alias_cross_client[a]);
-  s += "},\"per_op\":{";
-  for (size_t i = 0; i < g_ops.size(); ++i) s += std::string(i ? "," : "") + "\"" + g_ops[i].name + "\":" + std::to_string(per_op[i]);
-  s += "},\"adjacency_keys\":[";
-  { bool first = true; for (uint64_t a : adjacency) { s += std::string(first ? "" : ",") + "\"" + hex(a) + "\""; first = false; } }
-  s += "],\"sample\":" + (sample.empty() ? std::string("null") : sample) + "}";
-  puts(s.c_str());
+  print_stats(st, "serial", seed0);
   return 0;
   }
 
-// stdin: first line "clients N", then one line per step: "<client> <opname> <a hex> <b hex>"; the last step is the victim
+// fine mode: whole-call reference execution vs executions with concurrent segments and seeded preemption
+static int do_scan_fine(uint64_t seed0, uint64_t count, const char * hashfile, uint64_t max_findings)
+  {
+  Stats st; st.per_op.assign(g_ops.size(), 0);
+  FILE * hf = hashfile ? fopen(hashfile, "wb") : nullptr;
+  const int variants = 3;
+  for (uint64_t k = 0; k < count; ++k)
+    {
+    uint64_t seed = seed0 + k;
+    Plan p = gen_plan(seed, 2);
+    size_t n = p.items.size();
+    std::vector<int> fwd(n);
+    for (size_t i = 0; i < n; ++i) fwd[i] = static_cast<int>(i);
+    std::vector<Res> ra = run_serial(p.items, fwd, p.clients);
+    account_plan(st, p, ra, seed, 1 + variants);
+    bool found = false;
+    for (int v = 0; v < variants && !found; ++v)
+      {
+      uint64_t sseed = mix64(seed, 0x1000 + static_cast<uint64_t>(v));
+      Schedule sc = fine_schedule(p, sseed);
+      Outcome oc = run_schedule(sc, false, sseed);
+      ++st.fine_execs;
+      if (!oc.complete) continue;
+      uint64_t th = mix64(p.hash, 0x77);
+      for (const TraceRec & t : oc.trace) { th = mix64(th, (static_cast<uint64_t>(t.seg) << 40) ^ (static_cast<uint64_t>(t.from) << 32) ^ t.idx); th = mix64(th, t.to); if (t.from != SW_START && t.idx != SW_AT_END) ++st.preemptions; }
+      for (const Segment & g : sc.segs) if (g.items.size() > 1) { ++st.concurrent_segments; st.concurrent_calls += g.items.size(); th = mix64(th, g.items.size() * 131u + static_cast<uint64_t>(g.items[0])); }
+      { uint64_t dd = th; for (size_t i = 0; i < n; ++i) { dd = mix64(dd, oc.res[i].status); dd = mix64(dd, oc.res[i].bits); } st.digest += dd; }
+      bool has_conc = false;
+      for (const Segment & g : sc.segs) if (g.items.size() > 1) has_conc = true;
+      if (has_conc) { st.traces.insert(th); if (hf) fwrite(&th, 8, 1, hf); }
+      for (size_t i = 0; i < n && !found; ++i)
+        {
+        if (ra[i].status == 255 || oc.res[i].status == 255 || same(ra[i], oc.res[i])) continue;
+        ++st.disagreements;
+        Res iso = isolated(p.items[i]); ++st.iso_checks;
+        if (iso.status == 255) continue;
+        if (!same(oc.res[i], iso))
+          { if (report(seed, "fine", with_trace(sc, oc.trace), static_cast<int>(i), iso)) ++st.findings; else ++st.unstable; found = true; }
+        else if (!same(ra[i], iso))
+          {
+          std::vector<int> order; for (int j = 0; j <= static_cast<int>(i); ++j) order.push_back(j);
+          if (report(seed, "serial", serial_schedule(p.items, order, p.clients), static_cast<int>(i), iso)) ++st.findings; else ++st.unstable; found = true;
+          }
+        }
+      }
+    if (st.findings >= max_findings) break;
+    }
+  if (hf) fclose(hf);
+  print_stats(st, "fine", seed0);
+  return 0;
+  }
+
+// stdin:  clients N / seg / call <client> <op> <a hex> <b hex> / sw <from> <at_yield|-1> <to> / victim <seg> <call>
 static int do_exec()
   {
-  char line[512]; int clients = 1; std::vector<Item> steps;
+  char line[512]; Schedule sc; sc.clients = 1; int vseg = -1, vcall = -1;
   while (fgets(line, sizeof line, stdin))
     {
-    char name[256]; unsigned c; unsigned long long a, b;
-    if (sscanf(line, "clients %d", &clients) == 1) continue;
-    if (sscanf(line, "%u %255s %llx %llx", &c, name, &a, &b) == 4)
+    char name[256]; unsigned c, f, t; long long idx; unsigned long long a, b; int x, y;
+    if (sscanf(line, "clients %d", &sc.clients) == 1) continue;
+    if (strncmp(line, "seg", 3) == 0) { Segment g; g.den = 0; g.budget = 0; sc.segs.push_back(g); continue; }
+    if (sscanf(line, "call %u %255s %llx %llx", &c, name, &a, &b) == 4)
       {
       int oi = op_index(name);
       if (oi < 0) { fprintf(stderr, "hsim: unknown operation %s\n", name); return 2; }
+      if (sc.segs.empty()) { fprintf(stderr, "hsim: call before seg\n"); return 2; }
       Item it{}; it.client = static_cast<uint8_t>(c); it.op = static_cast<uint16_t>(oi); it.a = a; it.b = b; it.alias_of = -1;
-      steps.push_back(it);
+      sc.items.push_back(it); sc.segs.back().items.push_back(static_cast<int>(sc.items.size() - 1));
+      continue;
       }
+    if (sscanf(line, "sw %u %lld %u", &f, &idx, &t) == 3)
+      {
+      if (sc.segs.empty()) return 2;
+      sc.segs.back().script.push_back(Switch{static_cast<uint8_t>(f), idx < 0 ? SW_AT_END : static_cast<uint32_t>(idx), static_cast<uint8_t>(t)});
+      continue;
+      }
+    if (sscanf(line, "victim %d %d", &x, &y) == 2) { vseg = x; vcall = y; }
     }
-  if (steps.empty() || clients < 1 || clients > 8) { fprintf(stderr, "hsim: empty or malformed schedule\n"); return 2; }
-  for (auto & s : steps) if (s.client >= clients) { fprintf(stderr, "hsim: client out of range\n"); return 2; }
-  std::vector<int> order(steps.size());
-  for (size_t i = 0; i < steps.size(); ++i) order[i] = static_cast<int>(i);
-  std::vector<Res> r = run_history(steps, order, clients);
-  Res iso = isolated(steps.back());
-  std::string s = "EXEC {\"build\":\"" HSIM_BUILD_CELL "\",\"observed\":" + res_json(r.back()) + ",\"isolated\":" + res_json(iso) +
-                  ",\"differs\":" + ((r.back().status != 255 && iso.status != 255 && !same(r.back(), iso)) ? "true" : "false") + ",\"all\":[";
-  for (size_t i = 0; i < r.size(); ++i) s += std::string(i ? "," : "") + res_json(r[i]);
+  if (sc.items.empty() || sc.clients < 1 || sc.clients > 8) { fprintf(stderr, "hsim: empty or malformed schedule\n"); return 2; }
+  for (auto & it : sc.items) if (it.client >= sc.clients) { fprintf(stderr, "hsim: client out of range\n"); return 2; }
+  for (auto & g : sc.segs)
+    for (size_t i = 0; i < g.items.size(); ++i) for (size_t j = i + 1; j < g.items.size(); ++j)
+      if (sc.items[g.items[i]].client == sc.items[g.items[j]].client) { fprintf(stderr, "hsim: one client twice in a segment\n"); return 2; }
+  int victim = -1;
+  if (vseg >= 0 && vseg < static_cast<int>(sc.segs.size()) && vcall >= 0 && vcall < static_cast<int>(sc.segs[vseg].items.size())) victim = sc.segs[vseg].items[vcall];
+  if (victim < 0) victim = static_cast<int>(sc.items.size()) - 1;
+  Outcome o = run_schedule(sc, true, 0);
+  Res iso = isolated(sc.items[victim]);
+  const Res & got = o.res[victim];
+  std::string s = "EXEC {\"build\":\"" HSIM_BUILD_CELL "\",\"instrumented\":" + std::to_string(HSIM_INSTRUMENTED) + ",\"complete\":" + (o.complete ? "true" : "false") +
+                  ",\"observed\":" + res_json(got) + ",\"isolated\":" + res_json(iso) +
+                  ",\"differs\":" + ((o.complete && got.status != 255 && iso.status != 255 && !same(got, iso)) ? "true" : "false") + ",\"all\":[";
+  for (size_t i = 0; i < o.res.size(); ++i) s += std::string(i ? "," : "") + res_json(o.res[i]);
   s += "]}";
   puts(s.c_str());
   return 0;
@@ -715,21 +953,23 @@ static int do_merge(int argc, char ** argv)
 
 int main(int argc, char ** argv)
   {
-  build_catalogue();                      // registers function pointers only; calls nothing in the library
+  g_ops = hsim_build_catalogue();         // registers function pointers only; calls nothing in the library
   if (argc >= 2 && std::string(argv[1]) == "--list-ops")
     { for (auto & o : g_ops) printf("%s\n", o.name.c_str()); return 0; }
   if (argc >= 4 && std::string(argv[1]) == "--scan")
     {
-    const char * hf = nullptr; uint64_t maxf = 3;
+    const char * hf = nullptr; uint64_t maxf = 3; std::string mode = "serial";
     for (int i = 4; i + 1 < argc; i += 2)
       {
       if (std::string(argv[i]) == "--hashes") hf = argv[i + 1];
       if (std::string(argv[i]) == "--max-findings") maxf = strtoull(argv[i + 1], nullptr, 10);
+      if (std::string(argv[i]) == "--mode") mode = argv[i + 1];
       }
-    return do_scan(strtoull(argv[2], nullptr, 10), strtoull(argv[3], nullptr, 10), hf, maxf);
+    uint64_t s0 = strtoull(argv[2], nullptr, 10), cnt = strtoull(argv[3], nullptr, 10);
+    return mode == "fine" ? do_scan_fine(s0, cnt, hf, maxf) : do_scan_serial(s0, cnt, hf, maxf);
     }
   if (argc >= 2 && std::string(argv[1]) == "--exec") return do_exec();
   if (argc >= 2 && std::string(argv[1]) == "--merge") return do_merge(argc - 2, argv + 2);
-  fprintf(stderr, "usage: hsim --scan <seed0> <count> [--hashes f] [--max-findings n] | --exec | --merge files.. | --list-ops\n");
+  fprintf(stderr, "usage: hsim --scan <seed0> <count> [--mode serial|fine] [--hashes f] [--max-findings n] | --exec | --merge files.. | --list-ops\n");
   return 2;
   }
